@@ -519,12 +519,33 @@ def handle_of_fd(fd: int) -> FakeTextFile:
     return _OS.fs.handles[fd]
 
 
+_INSTALLED = False
+
+
+def write_to_fd(fd: int, text: str):
+    """What a child process does that was given the descriptor as its stdout and prints `text`."""
+    if _INSTALLED:
+        handle_of_fd(fd).write(text)
+    else:
+        import os
+        os.write(fd, text.encode('utf-8'))
+
+
+def file_bytes_as_text(path) -> str:
+    """The bytes of a file decoded as UTF-8, without newline translation."""
+    if isinstance(path, FakePath):
+        return utf8_decode(path._fs.raw_of(path))
+    return path.read_bytes().decode('utf-8')
+
+
 def install(fs: FakeFs):
     """Rebinds the module attributes through which the string-source code reaches the OS:
     spooled_file._io, frozen.os, equality.filecmp."""
     from exactly_lib.util.file_utils import spooled_file
     from exactly_lib.impls.types.string_source.contents import frozen
     from exactly_lib.impls.types.string_matcher.impl import equality
+    global _INSTALLED
+    _INSTALLED = True
     _OS.fs = fs
     _FILECMP.fs = fs
     spooled_file._io = _IoStub
@@ -538,6 +559,8 @@ def uninstall():
     from exactly_lib.util.file_utils import spooled_file
     from exactly_lib.impls.types.string_source.contents import frozen
     from exactly_lib.impls.types.string_matcher.impl import equality
+    global _INSTALLED
+    _INSTALLED = False
     spooled_file._io = _real_io
     frozen.os = os
     equality.filecmp = filecmp
